@@ -382,7 +382,7 @@ var cliHex64 = regexp.MustCompile(`[0-9a-f]{64}`)
 // C16: `desync prune -y` and `desync verify [-r]` on a compressed local store.
 func runC16Proc(c *fw.Case) {
 	c.Probe("process-level-case (real desync binary)")
-	dir := filepath.Join(c.Dir(), "store.d")
+	dir := filepath.Join(c.Dir(), []string{"store.d", ".store", "store dir", ".cache/desync"}[c.T.DrawOptional(4, "cli.dirname", 0)])
 	os.MkdirAll(dir, 0755)
 	r := c.Rand("c16.seed")
 	sz := sizes{64, 256, 1024}
@@ -685,6 +685,11 @@ func runC05Proc(c *fw.Case) {
 		if second, _ := os.ReadFile(archive); !bytes.Equal(first, second) {
 			c.Violate("archive-not-deterministic", "desync tar", "two runs of the same tar command wrote different files (%d vs %d bytes)", len(first), len(second))
 			return
+		}
+	}
+	if c.ChanceAdded(1, 3, "cli.prior") {
+		if prepopulate(c, dst, want) > 0 {
+			c.Fault("destination-not-empty")
 		}
 	}
 	exit, _, stderr, err = runDesync(untarArgs...)
